@@ -62,7 +62,8 @@ def nearest_rule(ctx, prog, cls, RID):
             upper = None
             for a, pol in atoms:
                 t = a.strip(casts=True)
-                if t.k == 'BinaryOperator' and t.op in ('<', '<=', '>', '>=') and any(q.refers_to_decl(x, plast) for x in t.walk() if x.k == 'DeclRefExpr'):
+                if t.k == 'BinaryOperator' and t.op in ('<', '<=', '>', '>=') and any(q.refers_to_decl(x, plast) for x in t.walk() if x.k == 'DeclRefExpr') and \
+                        any(x.k == 'MemberExpr' and x.decl and x.decl.get('n') == 'first' for x in t.walk()):        # the FOUND key against last
                     left_last = any(q.refers_to_decl(x, plast) for x in t.children[0].walk() if x.k == 'DeclRefExpr')
                     op = t.op if not left_last else {'<': '>', '>': '<', '<=': '>=', '>=': '<='}[t.op]     # as  key OP last
                     if not pol:
